@@ -165,13 +165,17 @@ def handleMachineOutageToIdle (inst : Instance) (s : State) (r : Rng)
   let (j, m) ← completeActiveOperation inst s.time s.jobs m
   pure ((s.replaceJob j).replaceMachine m, r)
 
+/-- first matching entry of the machine handler dictionary -/
+def machineHandlerOf (st : MSt) (new : NewSt) : Except Err MHandler :=
+  match new with
+  | .m ns => match machineHandler st ns with | some h => pure h | none => throw .notImplemented
+  | .t _ => throw .notImplemented
+
 /-- `handle_machine_transition` -/
 def handleMachineTransition (orc : Oracle) (inst : Instance) (s : State) (r : Rng)
     (tr : Transition) (mid : Nat) : Except Err (State × Rng) := do
   let m ← getMachine s.machines mid
-  let h ← match tr.new with
-    | .m ns => match machineHandler m.st ns with | some h => pure h | none => throw .notImplemented
-    | .t _ => throw .notImplemented
+  let h ← machineHandlerOf m.st tr.new
   match h with
   | .idleToSetup => handleMachineIdleToSetup orc inst s r tr m
   | .setupToWorking => handleMachineSetupToWorking orc inst s r tr m
@@ -299,15 +303,19 @@ def handleAgvTransitToOutage (orc : Oracle) (inst : Instance) (s : State) (r : R
 def handleAgvOutageToIdle (s : State) (r : Rng) (t : TransportState) : Except Err (State × Rng) :=
   pure (s.replaceTransport { t with st := .idle, outages := t.outages.map releaseOutage }, r)
 
+/-- first matching entry of the AGV handler dictionary -/
+def agvHandlerOf (st : TSt) (new : NewSt) : Except Err THandler :=
+  match new with
+  | .t ns => match agvHandler st ns with | some h => pure h | none => throw .notImplemented
+  | .m _ => throw .notImplemented
+
 /-- `handle_transport_transition` -/
 def handleTransportTransition (orc : Oracle) (inst : Instance) (s : State) (r : Rng)
     (tr : Transition) (tid : Nat) : Except Err (State × Rng) := do
   let t ← getTransport s.transports tid
   let tc ← getTransportCfg inst.transports t.id
   if !trTypeHandled tc.type then throw .notImplemented
-  let h ← match tr.new with
-    | .t ns => match agvHandler t.st ns with | some h => pure h | none => throw .notImplemented
-    | .m _ => throw .notImplemented
+  let h ← agvHandlerOf t.st tr.new
   match h with
   | .idleToWorking => handleAgvIdleToWorking orc inst s r tr t
   | .pickupToWaitingpickup => handleAgvPickupToWaiting inst s r tr t
